@@ -41,7 +41,7 @@ def calculate_checksum_udp(packet: Packet):
         pseudo_header.extend(packet.ip_dst)
         pseudo_header.extend(b'\x00')
         pseudo_header.extend(packet.ip.p.to_bytes(1, 'big'))
-        pseudo_header.extend(len(packet.tcp).to_bytes(2, 'big'))
+        pseudo_header.extend(len(packet.udp).to_bytes(2, 'big'))
 
     # IPv6
     if packet.ipv6_packet:
